@@ -355,6 +355,10 @@ func (x *Exec) callContract(st *State, fn *ssa.Function, con *Contract, args []V
 				b = argT[1]
 			} else if argT[1].Sort == "Bool" {
 				b = Ite(argT[1], IntLit(1), IntLit(0))
+			} else if argT[1].Sort == "Seq_Str" {
+				// an argument vector is recorded by name (argsId is a function: equal vectors have equal names)
+				x.reg.DeclFunc("argsId", []string{"Seq_Str"}, "Int")
+				b = App("Int", "argsId", argT[1])
 			}
 		}
 		x.emit(st, evMark, a, b, x.reg.StrLit(fn.Name()))
